@@ -18,6 +18,11 @@
    reads (descriptions, flags, term class + parameter list + height, operators, defuzzifier/activation parameters, rules as
    their text: antecedent tokens / consequent tokens / weight, and the rule's `enabled` flag, which has no FLL syntax).
 
+   After the generic Section: decidable equality of the syntax tree, and two concrete number systems — `tnum` (the
+   printed tokens with the implementation's closeness bit: the instance the correspondence check runs, tools/props/C14.py)
+   and `n3` (three numbers: the smallest system that satisfies the formatting assumptions and refutes the export fixed
+   point for a height that is rounded into the tolerance of 1).
+
    Not modelled (the importer's result additionally depends on them; the model accepts a superset of texts):
    loading of a rule against the engine (Rule.load: Model/Antecedent.v, Model/Consequent.v, properties C06/C07/C16) and
    parsing of a Function formula (Function.load: Model/ShuntingYard.v, C17) — both keep the text unchanged;
